@@ -1,0 +1,11 @@
+//go:build !verif
+
+// Package verifhook: instrumentation points for an external verification
+// harness. Without the "verif" build tag they are empty stubs.
+package verifhook
+
+func Touch(obj interface{}, write bool, site string) {}
+func Atomic(obj interface{}, site string)            {}
+func Lock(mu interface{}, site string)               {}
+func Unlock(mu interface{}, site string)             {}
+func Step(site string)                               {}
